@@ -139,6 +139,10 @@ def run_case(case):
         bad = check_subprocess(lang, data)
         if bad:
             return bad
+    if "scan_command" in ep:
+        bad = check_scan_command(lang, data)
+        if bad:
+            return bad
     return None
 
 
@@ -171,7 +175,7 @@ def gen(col, seed, n, lang, subprocess_every):
         (cls, malformed, case), r, ways, sp = v
         entry = []
         if r < 3:
-            entry.append("scan_path")
+            entry.append("scan_path" if r else "scan_command")
         elif r < 6:
             entry += ways
         if subprocess_every and int(digest(case.get("bytes_hex", case.get("text", ""))), 16) % subprocess_every == 0:
@@ -184,6 +188,36 @@ def gen(col, seed, n, lang, subprocess_every):
         col.samples = [s if not (isinstance(s, dict) and len(s.get("text", "")) > 500) else dict(s, text=s["text"][:500] + "...(truncated)") for s in col.samples]
 
     run_given(body, strat, seed, n)
+
+
+def profile_templates(col):
+    """scan_command (which also prints the summary) on one-file trees whose function lengths sit on and around the
+    category boundaries, in every combination of up to four functions: the summary arithmetic must terminate too."""
+    from itertools import combinations_with_replacement
+
+    pool = [2, 16, 31, 60, 61, 120]
+    n = 0
+    for k in (1, 2, 3, 4):
+        for combo in combinations_with_replacement(pool, k):
+            text = tree.flat_file("Python", list(combo))
+            col.eval({"lang": "Python", "text": text, "entry": ["scan_command"]}, nontrivial=False, labels=["class:length-profile"], distinct_key="profile:" + repr(combo))
+            n += 1
+    col.samples = [s if not (isinstance(s, dict) and len(s.get("text", "")) > 300) else dict(s, text=s["text"][:300] + "...(truncated)") for s in col.samples]
+
+
+def check_scan_command(lang, data):
+    rel = f"prog.{tree.EXT[lang]}"
+    with tree.temp_tree({rel: data}) as root:
+        res = cli.run_scan(root, ".")
+        if res.exc:
+            return (f"scan_command:{res.exc[0]}", res.exc[1])
+        if res.code != 0:
+            return ("scan_command:exit-status", f"exit {res.code}")
+        try:
+            json.loads((root / ".codelimit_cache" / "codelimit.json").read_text())
+        except Exception as e:  # noqa: BLE001
+            return ("scan_command:no-report", f"{type(e).__name__}: {e}")
+    return None
 
 
 def templates(col, lang, depths, flat_lines, deep_all=False):
@@ -222,6 +256,7 @@ def plan(tier, seed):
         for k in range(2 if quick else 4):
             jobs.append(("gen", {"seed": shard_seed(seed, ID, f"{lang}{k}"), "n": per // (2 if quick else 4), "lang": lang, "subprocess_every": 60 if quick else 120}))
         jobs.append(("templates", {"lang": lang, "depths": depths, "flat_lines": 1500 if quick else 5000, "deep_all": not quick}))
+    jobs.append(("profile_templates", {}))
     for k, seeded in enumerate([False, True] if quick else [False, True, False, True, False, True]):
         jobs.append(("atheris_campaign", {"seed": shard_seed(seed, ID, f"fz{k}"), "runs": 2000 if quick else 150000, "seeded": seeded}))
     return jobs
